@@ -5,6 +5,7 @@ package snaps
 import (
 	"encoding/json"
 	"fmt"
+	"github.com/gkampitakis/go-snaps/match"
 	"os"
 	"os/exec"
 	"path/filepath"
@@ -67,6 +68,10 @@ func c18Disturb(dir, kind string) {
 		cfg.MatchYAML(t, map[string]any{"a": map[string]any{"b": []any{[]any{func() {}}}}})
 	case "anchored-shared-pointer":
 		cfg.MatchYAML(t, c18Anchored{Base: c18SharedLeaf, Copy: c18SharedLeaf})
+	case "yaml-matchers":
+		cfg.MatchYAML(t, "k: [1, 2]\nm:\n  n: x\nb: !!binary aGk=\n", match.Any("$.k[0]"), match.Custom("$.m.n", func(any) (any, error) { return []byte("raw"), nil }), match.Type[string]("$.m.n"))
+	case "json-matchers":
+		cfg.MatchJSON(t, map[string]any{"d": []byte("abc")}, match.Any("d"))
 	case "invalid-text":
 		cfg.MatchYAML(t, "a: [\n")
 	case "text-document":
@@ -77,10 +82,17 @@ func c18Disturb(dir, kind string) {
 	t.end()
 }
 
-var c18Disturbances = []string{"unmarshalable-in-slice", "unmarshalable-in-map", "anchored-shared-pointer", "invalid-text", "text-document", "deep-slices"}
+var c18Disturbances = []string{"unmarshalable-in-slice", "unmarshalable-in-map", "anchored-shared-pointer", "invalid-text", "text-document", "deep-slices", "yaml-matchers", "json-matchers"}
 
 func c18GoValue(name string) any {
 	switch name {
+	case "bytes":
+		return struct {
+			Digest []byte            `yaml:"digest"`
+			M      map[string][]byte `yaml:"m"`
+			L      [][]byte          `yaml:"l"`
+			A      [3]byte           `yaml:"a"`
+		}{[]byte("abc"), map[string][]byte{"k": []byte("---"), "e": {}}, [][]byte{[]byte("x"), nil}, [3]byte{1, 2, 3}}
 	case "sharedptr":
 		return c18Plain{Leaf: c18SharedLeaf, Items: []string{"a", "b"}, Tags: map[string][]int{"x": {1, 2}, "y": {3}}}
 	case "map8":
@@ -133,7 +145,7 @@ func c18Gen(c *vfCtx, emit func(c18Case)) {
 		emit(c18Case{Kind: "text", Text: doc})
 		emit(c18Case{Kind: "text", Text: "# big\n---\n" + doc, Bytes: true})
 	}
-	for _, v := range []string{"map8", "struct", "slice", "sharedptr"} {
+	for _, v := range []string{"map8", "struct", "slice", "sharedptr", "bytes"} {
 		emit(c18Case{Kind: "govalue", Value: v})
 	}
 }
@@ -217,6 +229,27 @@ func c18Run(c *vfCtx, cs c18Case) {
 	c.outcome("replay:" + t2.outcome(vfMark{}))
 	if len(t2.errs)+len(t2.logs) > 0 || len(vfMutOps(ops2)) > 0 || vfDirDiff(before, vfSnapDir(dir), true) != "" {
 		c.violation(class, fmt.Sprintf("replay of %q: errors %v logs %v writes %s", vfClip(cs.Text), t2.errs, t2.logs, vfShowOps(vfMutOps(ops2))), cs)
+		return
+	}
+	// the same two entries stored in the other order, then Clean with sorting (a rewrite of the file by the library's other
+	// reader/writer): the document is still stored exactly as given and replays
+	if es2, err := vfParse(vfSnapDir(dir)["f.snap"].Data); err == nil && len(es2) == 2 {
+		os.WriteFile(filepath.Join(dir, "f.snap"), vfRender([]vfEntry{es2[1], es2[0]}), 0o644)
+		vfClean("", 1, true)
+		c.count("transitions", 1)
+		es3, err := vfParse(vfSnapDir(dir)["f.snap"].Data)
+		if err != nil || len(es3) != 2 || es3[0].ID != "TestA - 1" || es3[0].Body != es2[0].Body || es3[1].Body != es2[1].Body {
+			c.violation(class, fmt.Sprintf("after Clean re-sorted the file the document %q is stored as %s (%v)", vfClip(cs.Text), vfShowEntries(es3), err), cs)
+			return
+		}
+		vfResetState(false, "", true)
+		t3 := &vfT{name: "TestA"}
+		cfg.MatchYAML(t3, in)
+		cfg.MatchYAML(t3, "second: 1\n")
+		t3.end()
+		if len(t3.errs)+len(t3.logs) > 0 {
+			c.violation(class, fmt.Sprintf("replay of %q after Clean re-sorted the file: errors %v logs %v", vfClip(cs.Text), t3.errs, t3.logs), cs)
+		}
 	}
 }
 
@@ -308,6 +341,7 @@ func c18GoValues(c *vfCtx, cs c18Case) {
 }
 
 func init() {
+	vfDrivers["C18"] = &vfDriver{race: func(c *vfCtx) { vfRaceGoValues(c, []string{"yaml", "yaml-text", "json"}) }}
 	vfRegister("C18", func(c *vfCtx, emit func(c18Case)) {
 		if c.mode == "c18child" {
 			s, err := c18StoredText(filepath.Join(c.scratch, "gv"), os.Getenv("VERIF_CHILD_VALUE"))
@@ -318,7 +352,7 @@ func init() {
 			return
 		}
 		c.rule = "every text of <=3 (quick) / <=4 (thorough) lines over a 14-line YAML alphabet (separators, document end, comments, block scalar with an indented ---, flow sequences that look like entry headers, the escape token, blank lines) x 4 endings x {string, []byte}; " +
-			"validity decided by the YAML library go-snaps uses; Go values (one sharing a pointer with an anchor-tagged value) marshalled 21x in one process, after every single/pair of 6 unrelated calls (failing ones included), and in 3 fresh processes"
+			"validity decided by the YAML library go-snaps uses; Go values (one sharing a pointer with an anchor-tagged value) marshalled 21x in one process, after every single/pair of 8 unrelated calls (failing ones included), and in 3 fresh processes"
 		c.assume("validity oracle is goccy/go-yaml itself (gopkg.in/yaml.v3 is not in go-snaps' module graph and cannot be imported by injected code)")
 		c18Gen(c, emit)
 	}, c18Run)
